@@ -66,12 +66,12 @@ def run(ctx):
         core.write_ndjson(hp, hists)
         # random long histories (direction V)
         rp = ctx.path("rand-%s.ndjson" % kind)
-        ctx.harness(h, ["gen-hist", "--kinds", kind, "--n", 300 if ctx.quick else 20000, "--len", 30, "--seed", ctx.seed, "--out", rp])
+        ctx.harness(h, ["gen-hist", "--kinds", kind, "--n", 300 if ctx.quick else 3000, "--len", 30, "--seed", ctx.seed, "--out", rp])
         with open(hp, "a") as f:
             f.write(open(rp).read())
         evp = ctx.path("hist-%s.ev" % kind)
         ctx.harness(h, ["hist-events", "--in", hp, "--out", evp])
-        mism, _, n = ctx.validate(evp, chunk=40000)
+        mism, _, n = ctx.validate(evp, chunk=10000, jvms=5, workers=3)
         for e in core.read_ndjson(evp):
             if e["ops"]:
                 ctx.nontrivial.add((kind, json.dumps([[o["op"], o["k"], o["v"], o["i"], o["ks"], o["vs"]] for o in e["ops"]])))
